@@ -829,10 +829,19 @@ pub fn oracle_c12(cfg: &LwCfg, si: &ScriptInfo, tr: &Trace, check_resend_livenes
                 }
                 if check_resend_liveness {
                     // at the end of a fair suffix: acknowledged, moved past, or still scheduled (sender pending)
-                    let acked = acks.iter().any(|a| list.iter().any(|(_, f)| a.frames.contains(f)) || (a.pbase_rel < 0x80000 && rel < a.pbase_rel));
+                    // (a window base beyond the packet ends the retransmission of a Persistent packet; the receiver passes a Reliable one only
+                    // after delivering it, so for a Reliable packet it counts only if the application did receive the packet)
+                    let delivered = tr.dels.iter().any(|d| d.side == 1 - side && d.sub == Some(op));
+                    let acked = acks.iter().any(|a| list.iter().any(|(_, f)| a.frames.contains(f)) || (a.pbase_rel < 0x80000 && rel < a.pbase_rel && (mode == SendMode::Persistent || delivered)));
                     let last = tr.obs.iter().filter(|o| o.side == side).last().unwrap();
                     if !acked && !last.pending {
                         push(viol("C12.until-ack", "C12.until-ack".into(), format!("side {}: fragment {} of {:?} packet id {} was never acknowledged, yet the sender stopped retransmitting it (nothing pending at the horizon)", side, frag, mode, pid)), &mut out);
+                    }
+                    // a sender that still reports something pending but has not transmitted the fragment for the last 200 s of a fair network
+                    // has abandoned it just the same (the longest wait between retransmissions is one full frame at the minimum rate: 64 s)
+                    let t_last_tx = list.iter().map(|(ei, _)| tr.ems[*ei].t_ms).max().unwrap_or(0);
+                    if !acked && last.pending && last.t_ms > t_last_tx + 200_000 && tr.blackout.is_none() {
+                        push(viol("C12.until-ack", "C12.until-ack:abandoned".into(), format!("side {}: fragment {} of {:?} packet id {} was never acknowledged and was last transmitted at t={} ms; the sender still reports data pending at t={} ms but has not retransmitted it in the {} s of loss-free network in between", side, frag, mode, pid, t_last_tx, last.t_ms, (last.t_ms - t_last_tx) / 1000)), &mut out);
                     }
                 }
             }
